@@ -47,7 +47,7 @@ partial def dec : SExp → Option CExpr
 
 def run (ar : Bool) (fs : List String) : Option String := do
   let e ← dec (← parseSExp (" ".intercalate fs))
-  pure (match convertG ar e with
+  pure (match convertG noHook ar e with
     | .ok r => "ok " ++ Drv.IRPrint.encFilter r
     | .err => "err"
     | .panic p => "panic " ++ panicName p)
